@@ -15,7 +15,7 @@
      ( n4 i err ) sub.done  ( n5 i ) sub.ctx   ( n6 i ) sub.unsub      ( n7 i err ) sub.drain
      ( n8 i ) sub.return    ( n9 i err ) Subscribe returned err (harness)
      ( n10 i ) harness is about to cancel subscriber i's context
-     ( n11 p topics idopt ) pub.enter          ( n12 p ) pub.sent      ( n13 p ) pub.closed
+     ( n11 p topics idopt thread ) pub.enter   ( n12 p ) pub.sent      ( n13 p ) pub.closed
      ( n14 p ) pub.return   ( n15 p err ) Publish returned err (harness)
      ( n16 h ) shut.enter   ( n17 h ) shut.close   ( n18 h ) shut.closed  ( n19 h ) shut.done
      ( n20 h ) shut.ctx     ( n21 h ) shut.return  ( n22 h err ) Shutdown returned err (harness)
